@@ -1432,6 +1432,8 @@ PROPS['C02'] = dict(
 PROPS['C19'] = dict(
     module='FlacModel.Props.C19',
     theorems=['Flac.C19.subframe_bits_le_verbatim', 'Flac.C19.pick_le_fixed', 'Flac.C19.constant_block_small_partial',
+              'Flac.C19.constant_block_small', 'Flac.C19.fixed_zero_candidate_bits', 'Flac.C19.zero_residual_bits',
+              'Flac.C19.zero_partition_is_constant', 'Flac.C19.all_zero_is_constant_subframe',
               'Flac.C19.header_bits_le', 'Flac.C19.frame_bytes_bound'],
     components=[EncFrame('size')],
     rule='every generated frame of the real encoder is measured against 16 + ceil(sum over channels of (41 + n x depth_i))/8 + 2 bytes '
@@ -1439,8 +1441,11 @@ PROPS['C19'] = dict(
          'alternating extremes and low-amplitude noise designed to defeat the Rice estimate',
     claim='subframe_bits_le_verbatim: for EVERY candidate size (whatever the heuristics produced) the subframe chosen by the fallback comparison '
           'extracted from encode_subframe is no larger than VERBATIM; pick_le_fixed / constant_block_small_partial: the result is never larger than '
-          'the FIXED candidate plus a header; header_bits_le: a frame header is at most 15 bytes + CRC-8; frame_bytes_bound composes them.',
-    note='The bit count of the FIXED candidate for a constant block (a few dozen bits) is measured on the real encoder, not derived from a model of write_residuals.',
+          'the FIXED candidate plus a header; constant_block_small: a FIXED candidate whose residual consists of zero-width partitions only (what write_residuals records for an all-zero residual: '
+          'zero_partition_is_constant, regenerated from Partition::new; at most encMaxPartitions of them) costs at most 8 + wasted + 4 warm-up samples + 646 bits, so the subframe written for a '
+          'constant channel is bounded independently of the block length n, for every LPC candidate and depth; header_bits_le: a frame header is at most 15 bytes + CRC-8; frame_bytes_bound composes them.',
+    note='That the FIXED candidate of a constant block HAS an all-zero residual (order >= 1 differences of equal samples) and which partition order min_by_key keeps are not modelled: the driver checks on every '
+         'generated constant block that each written subframe is CONSTANT or FIXED/LPC over zero-width partitions only, and the oracle measures the tighter 12 bytes per channel.',
     trusted_base=COMMON_TRUST,
     assumptions=['the recorded candidate size equals the bits later played back (BitRecorder is trusted)'],
 )
